@@ -197,6 +197,11 @@ def seeds_and_mutants(x, rnd, n_mut):
             else:
                 b[rnd.randrange(len(b))] = rnd.randrange(256)
             M[k].append(bytes(b))
+        # every valid encoding cut short by 1..3 octets and by half (a decoder must not look behind the end of a truncated input)
+        for b in base:
+            for t in (1, 2, 3, len(b) // 2):
+                if 0 < t < len(b):
+                    M[k].append(bytes(b[:len(b) - t]))
     return S, M
 
 
@@ -223,8 +228,8 @@ def make_sm(x):
     out = []
     st = x.out(x.call("btokSM_keep", ret="z"))
     key = bytes([1, 2, 3] + [0] * 29)
-    for cdf, le in ((0, 0), (5, 0), (0, 256), (20, 16), (300, 0)):
-        x.call("btokSMStart", st, x.buf(key), ret="v")
+    for cdf, le in ((0, 0), (5, 0), (0, 256), (20, 16), (300, 0), (0, 1), (0, 300), (7, 65536), (255, 256), (256, 1)):
+        x.call("btokSMStart", st, x.buf(key), ret="v"); x.call("btokSMCtrInc", st, ret="v")       # commands are protected at odd counter values
         cmd = bytes([0x00, 0xA4, 0x04, 0x04]) + le.to_bytes(8, "little") + cdf.to_bytes(8, "little") + bytes(range(cdf % 256)) * (cdf // 256 + 1)
         cmd = cmd[:16 + 4 + cdf] if False else bytes([0x00, 0xA4, 0x04, 0x04]) + bytes(4) + le.to_bytes(8, "little") + cdf.to_bytes(8, "little") + bytes((i * 3) % 256 for i in range(cdf))
         C = x.buf(cmd)
@@ -234,9 +239,9 @@ def make_sm(x):
         n = int.from_bytes(cnt.read(), "little")
         o = x.out(n)
         if x.call("btokSMCmdWrap", o, cnt, C, st) == 0:
-            out.append(b"\x00" + o.read())
+            out.append(b"\x01" + o.read())        # first octet: selector of the fuzz target (bit 0: one increment for commands)
     for rdf in (0, 7, 300):
-        x.call("btokSMStart", st, x.buf(key), ret="v"); x.call("btokSMCtrInc", st, ret="v")
+        x.call("btokSMStart", st, x.buf(key), ret="v"); x.call("btokSMCtrInc", st, ret="v"); x.call("btokSMCtrInc", st, ret="v")    # responses at even values
         resp = bytes([0x90, 0x00]) + bytes(6) + rdf.to_bytes(8, "little") + bytes((i * 5) % 256 for i in range(rdf))
         R = x.buf(resp)
         cnt = x.zero(8)
@@ -245,7 +250,7 @@ def make_sm(x):
         n = int.from_bytes(cnt.read(), "little")
         o = x.out(n)
         if x.call("btokSMRespWrap", o, cnt, R, st) == 0:
-            out.append(b"\x00" + o.read())
+            out.append(b"\x02" + o.read())        # bit 1: second increment for responses
     return out
 
 
